@@ -8,19 +8,19 @@
 // attribute table of a universe U of paths (paths need not exist), and the
 // table is compared with an expectation that is derived from Git only:
 //
-//   * denotation of a pattern P typed in directory d: a *twin repository*
+//   - denotation of a pattern P typed in directory d: a *twin repository*
 //     whose d/.gitattributes holds P in Git's C-quoted form ("..." with \\ \"
 //     \t \NNN) followed by a probe attribute; D(P) = {u in U : probe is set}.
 //     This uses Git's own matcher and is independent of git-lfs's escaping
 //     ([[:space:]], \#, doubled backslashes).
-//   * denotation of `--filename N` typed in d: must = {d/N}. Weakest reading
+//   - denotation of `--filename N` typed in d: must = {d/N}. Weakest reading
 //     (written down because the statement says "exactly that literal path"):
 //     a name without '/' is written as a gitattributes pattern without '/',
 //     which Git applies to that basename in every directory below d; the man
 //     page says "literal filenames", not "paths", so paths d/**/N are
 //     tolerated either way (may-set, counted in the evidence) and only the
 //     paths outside the may-set must stay untouched.
-//   * frame: the table before the first command (S0, again from Git).
+//   - frame: the table before the first command (S0, again from Git).
 //
 // Checked after every command (model state per argument: untouched / tracked /
 // untracked, lockable yes / no / unknown):
@@ -47,6 +47,7 @@ package main
 import (
 	"bytes"
 	"encoding/json"
+	"flag"
 	"fmt"
 	"os"
 	"path"
@@ -714,10 +715,13 @@ func replay(p string) {
 }
 
 func main() {
-	run := evid.New("C19", "exploration")
+	// --replay: handled before evid.New, which clears the old witnesses of this tier and
+	// seed (the file to be replayed may be one of them) and the evidence file.
+	flag.Parse()
 	if p := evid.ReplayPath(); p != "" {
 		replay(p)
 	}
+	run := evid.New("C19", "exploration")
 	run.Rule = "seeded generator, case = (invocation directory, pre-existing .gitattributes variant, 1-2 arguments, sequence of 1..8 track/--lockable/--not-lockable/untrack/repeat commands). Arguments: patterns from a small glob grammar (literal, *.ext, lit*, lit?ext, [0-9], dir/*.ext, dir/**, **/x, leading /; literals over letters, digits, space, #, quotes, !, punctuation, non-ASCII) or --filename names over printable ASCII, space, TAB, quotes, #, !, * ? [ ], backslash, non-ASCII, optionally below a sub-directory. Universe U per case = paths drawn from the argument's shape plus near misses (space<->TAB, other directory depth, outside the invocation directory, case, suffix/prefix, glob characters expanded, escapes added/removed) plus paths covered by the pre-existing patterns. Oracle = git check-attr -a on U in the repository under test against (a) Git's own matcher on the C-quoted pattern in a twin repository, (b) the single path d/N for --filename, (c) the table before the sequence. A class is (argument modes, feature set or known-trigger coordinate of each argument, kind of invocation directory, pre-existing variant); distinct_nontrivial counts classes executed."
 	run.Assumptions = []string{
 		"Git 2.39's check-attr and its reading of C-quoted patterns in .gitattributes are the authority on what a pattern denotes",
